@@ -11,9 +11,16 @@ SEEDED = os.environ.get("SEEDED_DIR") or os.path.join(HERE, "seeded")
 
 
 def main():
+    out_override = None
+    if "--out" in sys.argv:
+        i = sys.argv.index("--out")
+        out_override = sys.argv[i + 1]
+        del sys.argv[i:i + 2]
     ids = [a for a in sys.argv[1:] if not a.startswith("--")] or sorted(d for d in os.listdir(SEEDED) if os.path.exists(os.path.join(SEEDED, d, "patch.diff")))
     props = ["C%02d" % i for i in range(1, 20)]
     outp = os.path.join(HERE, "seeded", "MATRIX.json")
+    if out_override:
+        outp = os.path.join(HERE, out_override)
     matrix = json.load(open(outp)) if os.path.exists(outp) else {}
     work = "/tmp/sweep-repo-%d" % os.getpid()
     for sid in (["unchanged"] if "--fast" not in sys.argv and "--own" not in sys.argv and "--own-all" not in sys.argv else []) + ids:
@@ -52,6 +59,8 @@ def main():
             c = subprocess.run([os.path.join(HERE, "check"), p, "quick"], cwd=HERE, env=env, capture_output=True, text=True)
             nvio = sum(1 for l in c.stdout.splitlines() if l.startswith("VIOLATION"))
             row[p] = {"exit": c.returncode, "violations": nvio, "wall_s": round(time.time() - t0, 1)}
+            if nvio:
+                row[p]["first"] = [l.strip()[:300] for l in c.stdout.splitlines() if l.strip().startswith("violation monitor=")][:3]
             if c.returncode == 2:
                 row[p]["inconclusive"] = [l for l in c.stdout.splitlines() if "INCONCLUSIVE" in l][:1]
         matrix[sid] = row
